@@ -205,6 +205,11 @@ func c13Run(c *mon.Ctx, csAny any) {
 			return nil, nil
 		}
 
+		if h == mon.Havoc {
+			// decided by the move (see mon.Havoc); a placeholder until then
+			return mon.Scal(big.NewInt(5)), big.NewInt(5)
+		}
+
 		v := mon.BigH(h)
 
 		return mon.Scal(v), v
@@ -218,19 +223,24 @@ func c13Run(c *mon.Ctx, csAny any) {
 		if cs.Move != nil && t != nil {
 			c.Count("history-cases")
 
-			s = mon.Scal(mon.BigH(cs.Move.From))
-			// the old value is compared and serialised, then the object moves
-			_, _, _, _ = s.LessOrEqual(t), t.LessOrEqual(s), s.Equal(t), s.IsOne()
-			_, _ = s.Encode(), s.Bits()
+			var (
+				pan bool
+				pv  any
+			)
 
-			if pan, pv := mon.Call(func() { mon.ApplyScalarMove(s, *cs.Move) }); pan {
-				if m, ok := pv.(string); ok && len(m) > 8 && m[:8] == "harness:" {
-					panic(m)
-				}
-
+			s, sv, pan, pv = mon.MoveScalar(*cs.Move, func(s *secp256k1.Scalar) {
+				// the old value is compared and serialised, then the object moves
+				_, _, _, _ = s.LessOrEqual(t), t.LessOrEqual(s), s.Equal(t), s.IsOne()
+				_, _ = s.Encode(), s.Bits()
+			})
+			if pan {
 				c.Fail(fmt.Sprintf("mutator %s panicked: %v", cs.Move.Via, pv), "cmp-history-panic", nil)
 
 				return
+			}
+
+			if cs.T == mon.Havoc {
+				t, tv = mon.Scal(sv), sv
 			}
 		}
 
